@@ -492,6 +492,18 @@ class _CastInterp(FinamInterp):
             return o
         return super().construct(cls, args, kwargs, node)
 
+    def get_attr(self, obj, attr, node, mod):
+        # private state of the freshly built grid that the partial evaluation could not seed (it depends on real coordinates):
+        # an opaque term - the obligation is about the constructor arguments, what the cast patches afterwards is its own business
+        if isinstance(obj, Obj) and obj.label.startswith("built:") and attr not in obj.fields and attr.startswith("_"):
+            return Sym("built-state", attr)
+        return super().get_attr(obj, attr, node, mod)
+
+    def ext_call(self, name, args, kwargs, node):
+        if name.split(".")[-1] == "replace" and args and isinstance(args[0], Sym) and args[0].op in ("built-state", "replaced"):
+            return Sym("replaced", args[0], tuple(sorted((k, repr(v)) for k, v in kwargs.items())))
+        return super().ext_call(name, args, kwargs, node)
+
 
 def r32p_casts(repo, sink):
     for cname, meth, target, fields in (
